@@ -117,8 +117,8 @@ theorem runBody_ok (f : Node → St → Res × St) (hf : CalleeOK env inp f) :
     exact ⟨id, fun h => ⟨hs h, ⟨0, by simp [runBody, denoteBody]⟩⟩⟩
   | read a x k ih =>
     intro s hs
-    have hsc := sameCache_noteRead s a x
-    have := ih (env.refs x) (s.noteRead a x)
+    have hsc := sameCache_noteRead s (a && (env.refs x).isSome) x
+    have := ih (env.refs x) (s.noteRead (a && (env.refs x).isSome) x)
       (fun h => Good.of_sameCache env inp hsc (hs (hsc.hit ▸ h)))
     simp only [runBody]
     refine ⟨fun h => this.1 (hsc.hit ▸ h), fun h => ?_⟩
@@ -287,7 +287,7 @@ theorem runBody_complete (d : Nat) (f : Node → St → Res × St) (hf : CalleeO
   | read a x k ih =>
     intro s r hg h0 h
     simp only [runBody, denoteBody] at h ⊢
-    have hsc := sameCache_noteRead s a x
+    have hsc := sameCache_noteRead s (a && (env.refs x).isSome) x
     exact ih _ _ r (Good.of_sameCache env inp hsc hg) (hsc.hit ▸ h0) h
   | call n k ih =>
     intro s r hg h0 h
